@@ -58,6 +58,8 @@ class Entity(ABC):
         self._uid = (
             str2uuid(uid) if isinstance(str2uuid(uid), uuid.UUID) else uuid.uuid4()
         )
+        if self.workspace.find_entity(self._uid) is not None:
+            raise RuntimeError(f"Key '{self._uid}' already used.")
 
         self._allow_delete = True
         self._allow_move = True
